@@ -14,6 +14,31 @@ The timer fragments are written in a tiny effect language.  Every fragment becom
     now last_rx timeout (ms, Z)  ->  use_ka abandoned (bool)  ->  timer (option Z: absolute expiry of *this* timer)
     ->  fx  := (timer', last_rx', use_ka', pings, teardowns)
 Anything that is not recognised raises Untranslatable (fail closed).
+
+Accepted equivalent forms (beyond the literal text of the reference tree), with the equivalence argument:
+
+ 1. connectionLost cancel block through a local:   v = self.<timer>            instead of   if self.<timer>:
+                                                   if v:                                       self.<timer>.cancel()
+                                                       v.cancel()                              self.<timer> = None
+                                                       self.<timer> = None
+    (the Assign must be immediately followed by the `if v:`; v counts as an alias of the attribute's value only until
+    the attribute is assigned or cancelled, after which any further use of v is Untranslatable.)
+    Argument: in the reference form the attribute is read twice -- for the truth test and as receiver of .cancel() --
+    and both reads happen before any call other than bool(value).  The generator itself establishes that no method
+    but connectionMade / the two callbacks / connectionLost stores to the attribute and that the only values stored
+    are None and the handle returned by reactor.callLater; the model already relies on exactly this when it reads
+    `if self.<timer>:` as "a delayed call is pending" (bool() of None / of a handle has no effect on self).  Under
+    that same, already made, assumption two consecutive reads return the same object, so testing and cancelling the
+    cached object is the same as testing and cancelling the attribute; no read happens after a call in either form.
+ 2. Broker.connectionTimedOut may pass the Failure to self.shutdown(..) directly or through locals each assigned
+    exactly once immediately before their only use (err = ..; why = Failure(err); self.shutdown(why)  ==
+    self.shutdown(Failure(..))): the same constructor calls with the same constant arguments run in the same order
+    and the locals are dead afterwards.  A leading docstring is ignored.
+ 3. "touches the timer state" is decided on the AST (attribute accesses, names, and string constants that contain one
+    of the attribute names, so getattr/setattr by string still count), not on the source text: a docstring or bare
+    string statement is evaluated and dropped, it cannot touch anything.
+(The shared front-end translate/normalize.py additionally inlines calls to NEW private helpers and canonicalises renamed
+locals before this module sees the code.)
 """
 import ast
 from fractions import Fraction
@@ -74,7 +99,7 @@ class Frag:
             return "abandoned"
         if s == "self.useKeepalives":
             return "use_ka"
-        if s == "self." + self.timer_attr:
+        if s == "self." + self.timer_attr or (isinstance(e, ast.Name) and env.get(e.id) == "timer-alias"):
             return "(match timer with Some _ => true | None => false end)"
         if s == "self.%s is not None" % self.timeout_attr:
             return "true"      # the fragment is only used when the timeout is configured
@@ -98,7 +123,13 @@ class Frag:
             return "(if %s\n  then %s\n  else %s)" % (c, self.block(st.body, dict(env), go), self.block(st.orelse, dict(env), go))
         if isinstance(st, ast.Assign) and len(st.targets) == 1:
             tgt, val = un(st.targets[0]), st.value
+            if isinstance(st.targets[0], ast.Name) and un(val) == "self." + self.timer_attr:
+                # v = self.<timer>: v names the value the attribute holds now (see docstring, accepted form 1)
+                env2 = dict(env)
+                env2[st.targets[0].id] = "timer-alias"
+                return go(env2)
             if tgt == "self." + self.timer_attr:
+                env = {k: v for k, v in env.items() if v != "timer-alias"}    # the alias is stale from here on
                 if un(val) == "None":
                     if env.get("@pending"):
                         self.bail(st, "timer handle forgotten while the delayed call is still pending (no cancel)")
@@ -134,8 +165,11 @@ class Frag:
                 return "(let pings := Z.add pings 1 in\n %s)" % go(env)
             if s == "self.connectionTimedOut()":
                 return "(let teardowns := Z.add teardowns 1 in\n %s)" % go(env)
-            if s == "self.%s.cancel()" % self.timer_attr:
-                env2 = dict(env)
+            c = st.value
+            via_alias = isinstance(c.func, ast.Attribute) and c.func.attr == "cancel" and isinstance(c.func.value, ast.Name) \
+                and env.get(c.func.value.id) == "timer-alias" and not c.args and not c.keywords
+            if s == "self.%s.cancel()" % self.timer_attr or via_alias:
+                env2 = {k: v for k, v in env.items() if v != "timer-alias"}
                 env2["@pending"] = False
                 return "(let timer := @None Z in\n %s)" % go(env2)
             if s.startswith("log.msg("):
@@ -180,8 +214,28 @@ def the_if(fn, test_src, what):
 
 
 def mentions(node, names):
-    s = un(node)
-    return [n for n in names if n in s]
+    """names of the timer state that `node` can touch: attribute accesses, bare names, and string constants that
+    contain one of the names (getattr/setattr/__dict__ access by string) -- but not docstrings / bare string
+    statements, which are evaluated and dropped without any effect"""
+    inert = set()
+    for n in ast.walk(node):
+        if isinstance(n, ast.Expr) and isinstance(n.value, ast.Constant) and isinstance(n.value.value, str):
+            inert.add(id(n.value))
+    found = []
+    for n in ast.walk(node):
+        hit = None
+        if isinstance(n, ast.Attribute) and n.attr in names:
+            hit = n.attr
+        elif isinstance(n, ast.Name) and n.id in names:
+            hit = n.id
+        elif isinstance(n, ast.Constant) and isinstance(n.value, (str, bytes)) and id(n) not in inert:
+            v = n.value if isinstance(n.value, str) else n.value.decode("latin-1")
+            for nm in names:
+                if nm in v:
+                    hit = nm
+        if hit and hit not in found:
+            found.append(hit)
+    return found
 
 
 TIMER_WORDS = ["keepaliveTimer", "disconnectTimer", "dataLastReceivedAt", "useKeepalives", "callLater", "keepaliveTimeout",
@@ -253,12 +307,28 @@ def generate():
 
     # ---- connectionLost: the two cancel blocks
     cl = P.find_def(mod, "Banana.connectionLost")
+    used = set()
     for tag, spec in (("ka", ka), ("dc", dc)):
-        blk = the_if(cl, "self." + spec["timer_attr"], "connectionLost")
-        out.append(Frag("connectionLost/" + tag, pending_on_entry=True, **spec).emit("connectionLost_" + tag, [blk]))
-    for st in cl.body:
-        if not (isinstance(st, ast.If) and un(st.test) in ("self.keepaliveTimer", "self.disconnectTimer")) \
-                and mentions(st, TIMER_WORDS):
+        attr = spec["timer_attr"]
+        blocks = []
+        for i, st in enumerate(cl.body):
+            if isinstance(st, ast.If) and un(st.test) == "self." + attr:
+                blocks.append((i, [st]))
+            # accepted form 1:  v = self.<timer>  immediately followed by  if v: ...
+            if isinstance(st, ast.Assign) and len(st.targets) == 1 and isinstance(st.targets[0], ast.Name) \
+                    and un(st.value) == "self." + attr and i + 1 < len(cl.body) and isinstance(cl.body[i + 1], ast.If) \
+                    and un(cl.body[i + 1].test) == st.targets[0].id:
+                blocks.append((i, [st, cl.body[i + 1]]))
+        if len(blocks) != 1:
+            raise P.Untranslatable("connectionLost: expected exactly one cancel block for self.%s, found %d" % (attr, len(blocks)))
+        i, stmts = blocks[0]
+        if stmts[-1].orelse:
+            raise P.Untranslatable("connectionLost: cancel block of self.%s has an else branch" % attr)
+        for k in range(len(stmts)):
+            used.add(i + k)
+        out.append(Frag("connectionLost/" + tag, pending_on_entry=True, **spec).emit("connectionLost_" + tag, stmts))
+    for i, st in enumerate(cl.body):
+        if i not in used and mentions(st, TIMER_WORDS):
             raise P.Untranslatable("connectionLost touches the timers outside the two cancel blocks: " + un(st)[:120])
 
     # ---- nobody else arms, cancels or stamps: list every method of banana.py/broker.py that mentions the timer state
@@ -346,9 +416,31 @@ def generate():
 
     # ---- Broker.connectionTimedOut -> shutdown -> finish + loseConnection ; finish -> abandonAllRequests
     bm = P.load("broker.py")
-    cto = [un(s) for s in P.find_def(bm, "Broker.connectionTimedOut").body]
-    if not cto or cto[-1] != "self.shutdown(why)" or not any("ConnectionLost" in s for s in cto):
-        raise P.Untranslatable("Broker.connectionTimedOut changed: %r" % cto)
+    # accepted form 2: the argument of self.shutdown(..) directly, or through single-use locals each assigned exactly
+    # once immediately before its only use
+    body = [st for st in P.find_def(bm, "Broker.connectionTimedOut").body
+            if not (isinstance(st, ast.Expr) and isinstance(st.value, ast.Constant) and isinstance(st.value.value, str))]
+    if not body or not (isinstance(body[-1], ast.Expr) and isinstance(body[-1].value, ast.Call)
+                        and un(body[-1].value.func) == "self.shutdown" and len(body[-1].value.args) == 1
+                        and not body[-1].value.keywords):
+        raise P.Untranslatable("Broker.connectionTimedOut does not end in self.shutdown(<failure>)")
+    arg = body[-1].value.args[0]
+    for st in reversed(body[:-1]):
+        if not (isinstance(st, ast.Assign) and len(st.targets) == 1 and isinstance(st.targets[0], ast.Name)):
+            raise P.Untranslatable("Broker.connectionTimedOut: unexpected statement " + un(st)[:100])
+        nm = st.targets[0].id
+        uses = [n for n in ast.walk(arg) if isinstance(n, ast.Name) and n.id == nm]
+        if len(uses) != 1:
+            raise P.Untranslatable("Broker.connectionTimedOut: local %s is not used exactly once by the next statement" % nm)
+
+        class Sub(ast.NodeTransformer):
+            def visit_Name(self, node):
+                return st.value if node.id == nm else node
+        arg = Sub().visit(arg)
+    a = un(arg)
+    if not (a.startswith("failure.Failure(error.ConnectionLost(") and isinstance(arg, ast.Call) and len(arg.args) == 1
+            and isinstance(arg.args[0], ast.Call) and all(isinstance(x, ast.Constant) for x in arg.args[0].args)):
+        raise P.Untranslatable("Broker.connectionTimedOut passes %s to shutdown" % a[:120])
     sh = [un(s) for s in P.find_def(bm, "Broker.shutdown").body]
     if "self.finish(why)" not in sh or "self.transport.loseConnection()" not in sh \
             or sh.index("self.finish(why)") > sh.index("self.transport.loseConnection()"):
